@@ -33,6 +33,7 @@ type Session struct {
 	Stmt   int      `json:"stmt"`
 	Class  string   `json:"class"`
 	Always bool     `json:"always"`
+	CRLF   bool     `json:"crlf"` // the text uses \r\n line ends
 }
 
 type LObj struct {
@@ -47,7 +48,11 @@ func (i *LInner) Boom() int64 { panic("three level boom") }
 var citeRe = regexp.MustCompile(`line (\d+), column`)
 
 func runLines(s *Session) []N {
-	text := strings.Join(s.Lines, "\n") + "\n"
+	nl := "\n"
+	if s.CRLF {
+		nl = "\r\n"
+	}
+	text := strings.Join(s.Lines, nl) + nl
 	dc := context.NewDataContext()
 	dc.Add("obj", &LObj{In: &LInner{}})
 	dc.Add("arr", []int64{1, 2, 3})
@@ -189,15 +194,16 @@ func (g *gen) rblock(indent int, ss []interface{}) {
 type N = map[string]interface{}
 
 type gen struct {
-	r      *rand.Rand
-	lines  []string
-	ints   []string        // int locals that may be used
-	bools  []string        // bool locals
-	strs   []string        // string locals
-	def    map[string]bool // definitely assigned at this point
-	tag    int
-	loopd  int
-	budget int
+	r         *rand.Rand
+	lines     []string
+	ints      []string        // int locals that may be used
+	bools     []string        // bool locals
+	strs      []string        // string locals
+	def       map[string]bool // definitely assigned at this point
+	tag       int
+	loopd     int
+	budget    int
+	inMapLoop bool
 }
 
 var intNames = []string{"x", "y", "z", "w"}
@@ -485,6 +491,41 @@ func (g *gen) block(indent, depth, n int, inLoop bool) []interface{} {
 			g.loopd--
 			g.emit(indent, "}")
 			out = append(out, N{"k": "range", "v": v, "coll": "arr", "b": body, "line": ln})
+		case k == 17 && depth > 0 && g.loopd < 2 && !g.inMapLoop:
+			// forRange over the injected map: every key the map holds at loop entry exactly once, also when the body
+			// inserts keys.  The iteration order is unspecified, so the body is insensitive to it.
+			ln := g.emit(indent, "forRange rk := m {")
+			g.loopd++
+			g.inMapLoop = true
+			var body []interface{}
+			for n := 1 + g.r.Intn(3); n > 0; n-- {
+				switch g.r.Intn(5) {
+				case 0:
+					l2 := g.emit(indent+1, "cnt += 1")
+					body = append(body, N{"k": "asg", "t": N{"k": "var", "n": "cnt", "line": l2}, "op": "+=", "e": N{"k": "int", "v": 1, "line": l2}, "line": l2})
+				case 1:
+					l2 := g.emit(indent+1, "obj.B += 2")
+					body = append(body, N{"k": "asg", "t": N{"k": "fld", "n": "B", "line": l2}, "op": "+=", "e": N{"k": "int", "v": 2, "line": l2}, "line": l2})
+				case 2:
+					nk := []string{"k8", "k9"}[g.r.Intn(2)]
+					l2 := g.emit(indent+1, "m[\""+nk+"\"] = 5")
+					body = append(body, N{"k": "asg", "t": N{"k": "key", "n": nk, "line": l2}, "op": "=", "e": N{"k": "int", "v": 5, "line": l2}, "line": l2})
+				case 3:
+					l2 := g.emit(indent+1, "cnt += m[rk]")
+					body = append(body, N{"k": "asg", "t": N{"k": "var", "n": "cnt", "line": l2}, "op": "+=", "e": N{"k": "keyv", "n": "rk", "line": l2}, "line": l2})
+				default:
+					g.tag++
+					l2 := g.emit(indent+1, fmt.Sprintf("ev(%d, 7)", g.tag))
+					body = append(body, N{"k": "ev", "tag": g.tag, "e": N{"k": "int", "v": 7, "line": l2}, "line": l2})
+				}
+			}
+			g.inMapLoop = false
+			g.loopd--
+			g.emit(indent, "}")
+			out = append(out, N{"k": "rangem", "v": "rk", "b": body, "line": ln})
+			g.tag++
+			l3 := g.emit(indent, fmt.Sprintf("ev(%d, cnt)", g.tag))
+			out = append(out, N{"k": "ev", "tag": g.tag, "e": N{"k": "var", "n": "cnt", "line": l3}, "line": l3})
 		case k < 19 && (inLoop || g.r.Intn(30) == 0) && depth > 0:
 			// break / continue, usually guarded
 			kw := []string{"break", "continue"}[g.r.Intn(2)]
@@ -583,6 +624,11 @@ func runCase(s *Session) []N {
 	}
 	// most programs start by binding a few locals
 	var pre []interface{}
+	{
+		ln := g.emit(1, "cnt = 0")
+		pre = append(pre, N{"k": "asg", "t": N{"k": "var", "n": "cnt", "line": ln}, "op": "=", "e": N{"k": "int", "v": 0, "line": ln}, "line": ln})
+		g.def["cnt"] = true
+	}
 	for _, n := range intNames {
 		if r.Intn(10) < 7 {
 			v := r.Intn(6)
